@@ -160,6 +160,13 @@ func (tl *store) Resolve(id did.DID, resolveMetadata *resolver.ResolveMetadata) 
 				// We're trying to resolve the latest, it should not return an older (active) version when deactivated
 				return resolver.ErrDeactivated
 			}
+			// When resolving at a point in time, the version in force at that time decides: if that version is a
+			// deactivated one, do not fall through to an older (still active) version. Once deactivated is always deactivated.
+			if metadata.Deactivated && resolveMetadata != nil && !resolveMetadata.AllowDeactivated &&
+				resolveMetadata.ResolveTime != nil && resolveMetadata.Hash == nil && resolveMetadata.SourceTransaction == nil &&
+				!metadata.Updated.After(*resolveMetadata.ResolveTime) {
+				return resolver.ErrDeactivated
+			}
 			if matches(metadata, resolveMetadata) {
 				mdTmp := metadata.asVDRMetadata()
 				returnMetadata = &mdTmp
